@@ -149,6 +149,20 @@ class _Baton:
 
 
 _BATON = [None]      # the baton of the run in progress (the container classes are created once)
+_LINE = [False]      # line granularity: EVERY source line of bits/p2p.py executed by a receive thread is a scheduling point
+
+
+def _line_local(frame, event, arg):
+    if event == "line":
+        _pt("line")
+    return _line_local
+
+
+def _line_tracer(frame, event, arg):
+    fn = frame.f_code.co_filename.replace("\\", "/")
+    if fn.endswith("bits/p2p.py"):
+        return _line_local
+    return None
 
 
 def _pt(kind):
@@ -331,10 +345,16 @@ class _Run:
         b = self.baton
         b.go[t].acquire()                                     # wait for the start grant
         try:
+            if _LINE[0]:
+                import sys
+                sys.settrace(_line_tracer)
             self.node.recv_loop(t)
         except BaseException as e:   # noqa: the thread would die with this exception
             self.errors[t] = "%s: %s" % (type(e).__name__, e)
         finally:
+            if _LINE[0]:
+                import sys
+                sys.settrace(None)
             b.done[t] = True
             wk.idle = True
             b.back[t].release()
@@ -482,7 +502,28 @@ def _sweep_schedules(progs, limit, seed, recv_pt, cfg=None):
     base = [t for t in range(len(progs)) for _ in range(counts[t])]
 
     def sample():
-        for _ in range(limit):
+        for i in range(limit):
+            if _LINE[0] and i % 3:
+                # line granularity: uniform shuffles keep the threads in lockstep; also run them SKEWED (one thread gets a head
+                # start of k of its points, k uniform) and in BURSTS of random length, so that one thread can be anywhere inside
+                # a multi-line window when another one arrives
+                left = list(counts)
+                s = []
+                order = list(range(len(counts)))
+                rng.shuffle(order)
+                if i % 3 == 1:
+                    t0 = order[0]
+                    k = rng.randrange(left[t0] + 1)
+                    s += [t0] * k
+                    left[t0] -= k
+                mean = rng.choice([1, 2, 5, 20, 60])
+                while any(left):
+                    t = rng.choice([t for t in range(len(left)) if left[t]])
+                    k = min(left[t], 1 + int(rng.expovariate(1.0 / mean)))
+                    s += [t] * k
+                    left[t] -= k
+                yield s
+                continue
             s = list(base)
             rng.shuffle(s)
             yield s
@@ -552,7 +593,31 @@ def _impl_stress(progs, switch_us, repeats, cfg=None):
     return ("sweep", nrun, False, [len(p) for p in progs], [out])
 
 
-IMPL = {"run": _impl_run, "sweep": _impl_sweep, "stress": _impl_stress}
+def _impl_linesweep(progs, limit, seed, cfg=None):
+    """like a sweep, but at LINE granularity: every source line of bits/p2p.py that a receive thread executes is a scheduling
+    point (sys.settrace), and `limit` random interleavings of those points are executed.  Reaches races whose window contains
+    no operation on the shared containers (lazily filled tables, node-wide scratch attributes, check-then-act on plain fields)."""
+    _LINE[0] = True
+    try:
+        return _impl_sweep(progs, limit, seed, True, cfg)
+    finally:
+        _LINE[0] = False
+
+
+def _impl_linerun(progs, sched, cfg=None):
+    """one line-granularity schedule (the replay form of a linesweep outcome); same result shape as a sweep of one schedule"""
+    progs = _as_progs(progs)
+    _LINE[0] = True
+    try:
+        r = _Run(progs, True, cfg)
+        r.execute(list(sched), _rounds(progs))
+        q, sent, stored, errors = r.observe()
+    finally:
+        _LINE[0] = False
+    return ("sweep", 1, False, [len(p) for p in progs], [[list(_outcome_key(q, sent, stored, errors, len(progs))), list(sched), 1]])
+
+
+IMPL = {"run": _impl_run, "sweep": _impl_sweep, "stress": _impl_stress, "linesweep": _impl_linesweep, "linerun": _impl_linerun}
 
 
 # --------------------------------------------------------------------------------------
@@ -712,7 +777,7 @@ def canon(c, v):
 
 
 def _cfg_of(c):
-    n = {"run": 3, "sweep": 4, "stress": 3}[c["op"]]
+    n = {"run": 3, "sweep": 4, "stress": 3, "linesweep": 3, "linerun": 2}[c["op"]]
     return c["args"][n] if len(c["args"]) > n else None
 
 
@@ -741,6 +806,20 @@ def shrink(c):
         # a concrete schedule for every distinct outcome the sweep saw (rarest first)
         for sch in _WITNESS.get(_key(c), []):
             yield case(c["cls"] + ">run", "run", progs, sch, rest[2], *tail)
+        return
+    if c["op"] == "linesweep":
+        for sch in _WITNESS.get(_key(c), []):
+            yield case(c["cls"] + ">linerun", "linerun", progs, sch, *tail, timeout=120.0)
+        return
+    if c["op"] == "linerun":
+        sched = list(rest[0])
+        for t in range(len(progs)):
+            for i in range(len(progs[t])):
+                p2 = [list(p) for p in progs]
+                del p2[t][i]
+                yield case(c["cls"], "linerun", p2, sched, *tail, timeout=120.0)
+        if sched:
+            yield case(c["cls"], "linerun", progs, sched[:len(sched) // 2], *tail, timeout=120.0)
         return
     if c["op"] == "stress":
         # real concurrency is not replayable step by step: the replay is the programs (re-run up to `repeats` times).
@@ -849,6 +928,23 @@ def prop_oracle(c):
             v = _judge(progs, q, sent, stored, errors, [])
             if v is not None:
                 return "receive threads running freely (GIL switch interval %d us), repetition %d: %s" % (c["args"][1], i + 1, v)
+        return None
+    if c["op"] in ("linesweep", "linerun"):
+        _LINE[0] = True
+        try:
+            if c["op"] == "linerun":
+                scheds = [list(c["args"][1])]
+            else:
+                _, _, _, scheds = _sweep_schedules(progs, c["args"][1], c["args"][2], True, cfg)
+            for s in scheds:
+                r = _Run(progs, True, cfg)
+                r.execute(s, _rounds(progs))
+                q, sent, stored, errors = r.observe()
+                v = _judge(progs, q, sent, stored, errors, [])
+                if v is not None:
+                    return "line-granularity schedule %r: %s" % (s, v)
+        finally:
+            _LINE[0] = False
         return None
     if c["op"] == "run":
         scheds, recv_pt = [list(c["args"][1])], c["args"][2]
@@ -1056,6 +1152,16 @@ def gen_cases(rng, tier):
     # --- real concurrency (supporting search): the receive threads run freely on the node's own containers with a tiny
     #     GIL switch interval; finds what happens INSIDE a step the model treats as atomic (e.g. iterating the shared
     #     queue while another thread appends).  No message may be lost and no receive thread may die. ---
+    # --- line granularity: random interleavings where EVERY source line of p2p.py is a scheduling point (short programs;
+    #     the first messages of a fresh node matter most: lazily initialised node-wide state is filled then) ---
+    lsw = [(["ping"], ["ping"]), (["version"], ["ping"]), (["ping", "inv"], ["version", "verack"]), (["verack"], ["version"], ["ping"]),
+           (["inv"], ["ping"]), (["ping"], ["unknown"], ["addr"])]
+    if T:
+        lsw += [(["ping", "ping"], ["ping", "version"], ["inv", "ping"]), (["version", "verack", "ping"], ["version", "verack", "ping"]),
+                (["addr", "ping"], ["inv", "version"])]
+    for i, ks in enumerate(lsw):
+        out.append(case("line-granularity-%d-peers" % len(ks), "linesweep", _progs([list(k) for k in ks]), 400 if T else 60, i,
+                        timeout=300.0))
     stress = [(3, 500, 10, 3), (4, 350, 5, 2)]
     if T:
         stress += [(3, 800, 1, 4), (3, 500, 50, 4), (5, 400, 10, 4), (2, 1500, 10, 4), (6, 300, 2, 4), (3, 1000, 5, 4)]
